@@ -488,16 +488,66 @@ def taken_variants(prog, fn, sbb, taken, adt):
     return names
 
 
-def guard_facts(prog, fn, bb):
+def _single_def_block(fn, local, want, depth=0):
+    """the one block in which `local` (followed through plain copies) is given the value `want` - ('variant', name) or
+    ('bool', '0'/'1') - when all its other definitions give it something else; None otherwise"""
+    if depth > 4:
+        return None
+    hits, unknown = [], False
+    for d in whole_defs(fn, local):
+        if d.kind != "stmt":
+            unknown = True
+            continue
+        rv = d.rv
+        if rv["k"] == "agg" and "variant" in rv:
+            if want[0] == "variant" and rv["variant"] == want[1]:
+                hits.append(d.bb)
+        elif rv["k"] == "use" and "c" in rv["op"]:
+            if want[0] == "bool" and str(rv["op"]["c"].get("int")) == want[1]:
+                hits.append(d.bb)
+        elif rv["k"] == "use":
+            q = op_place(rv["op"])
+            if q is not None and "p" not in q:
+                sub = _single_def_block(fn, q["l"], want, depth + 1)
+                if sub is None:
+                    unknown = True
+                else:
+                    hits.append(sub)
+            else:
+                unknown = True
+        else:
+            unknown = True
+    if unknown or len(set(hits)) != 1:
+        return None
+    return hits[0]
+
+
+def guard_facts(prog, fn, bb, _depth=0):
     """normalised list of dominating conditions of block bb:
        ('variant', place-proj-tuple, adt, frozenset(variant names))
        ('call', callee name, bool truth value on the path, Call)
        ('matches', adt, frozenset(variants), bool)
-       ('local', local, truth)   ('bin', op, truth, rv)"""
+       ('local', local, truth)   ('bin', op, truth, rv)
+    A test of a value that was *computed* from conditions (`let found = if cond { Some(x) } else { None }; if let Some(..)
+    = found`, the verdict of a helper read in place) also contributes the conditions under which that value was built."""
     out = []
     for (sb, taken) in guards(fn, bb):
         cd = cond_of(fn, sb)
         side = bool_true_labels(taken)
+        if _depth < 3:
+            want = None
+            pl = None
+            if cd.kind == "discr" and cd.place is not None and "p" not in cd.place and len(taken) == 1:
+                names = {"core::option::Option": {"0": "None", "1": "Some"}, "core::result::Result": {"0": "Ok", "1": "Err"}}.get(cd.adt or "")
+                lab = next(iter(taken))
+                if names and lab in names:
+                    want, pl = ("variant", names[lab]), cd.place["l"]
+            elif cd.kind == "local" and cd.place is not None and "p" not in cd.place and side is not None:
+                want, pl = ("bool", "1" if (side != cd.neg) else "0"), cd.place["l"]
+            if want is not None:
+                db = _single_def_block(fn, pl, want)
+                if db is not None and db != bb:
+                    out += guard_facts(prog, fn, db, _depth + 1)
         if cd.kind == "discr" and cd.adt in prog.adts:
             vs = taken_variants(prog, fn, sb, taken, cd.adt)
             out.append(("variant", _proj_names(cd.place), cd.adt, frozenset(vs), cd.place["l"]))
